@@ -15,6 +15,10 @@ def family(name, n):
         return "t = 0\nfor i in range(2):\n" + "".join(f"    t += {i % 3}\n" for i in range(n)) + "print(t)\n"
     if name == "elif-chain":
         return "v = -1\nif v == 0:\n    print(0)\n" + "".join(f"elif v == {i}:\n    print({i})\n" for i in range(1, n)) + "else:\n    print('none')\n"
+    if name == "dispatch-return":
+        return "def f(v):\n    if v == 0:\n        return 0\n" + "".join(f"    elif v == {i}:\n        return {i}\n" for i in range(1, n)) + "    else:\n        return -1\nprint(f(3), f(-5))\n"
+    if name == "dispatch-continue":
+        return "t = 0\nfor v in [0, 2, -1]:\n    if v == 0:\n        continue\n" + "".join(f"    elif v == {i}:\n        t += {i}\n        continue\n" for i in range(1, n)) + "    else:\n        break\nprint(t)\n"
     if name == "binop-chain":
         return "s = " + " + ".join("1" for _ in range(n)) + "\nprint(s)\n"
     if name == "boolop-chain":
@@ -34,7 +38,7 @@ def family(name, n):
     raise ValueError(name)
 
 
-FAMILIES = ["statements", "statements-in-function", "statements-in-loop", "elif-chain", "binop-chain", "boolop-chain", "attribute-chain",
+FAMILIES = ["statements", "statements-in-function", "statements-in-loop", "elif-chain", "dispatch-return", "dispatch-continue", "binop-chain", "boolop-chain", "attribute-chain",
             "call-chain", "nested-if", "nested-for", "list-display", "nested-parens-call"]
 DEEP = {"nested-if": 90, "nested-for": 18, "nested-parens-call": 150}   # CPython's own limits for the source are near these
 
@@ -83,9 +87,9 @@ def known_shape(fam, n, cfg, verdict):
     """attribute a failing run to one of the listed known findings (by option, family and failure kind)"""
     if cfg[1] == "chain_call" and fam in ("statements", "statements-in-function", "statements-in-loop") and "RecursionError" in verdict:
         return "KF-D51"     # the chain-call wrapper nests one call per consecutive statement of a block
-    if cfg[0] == "ast.unparse" and verdict == "fail:convert RecursionError" and fam in ("elif-chain", "binop-chain", "boolop-chain", "attribute-chain", "call-chain"):
+    if cfg[0] == "ast.unparse" and verdict == "fail:convert RecursionError" and fam in ("elif-chain", "dispatch-return", "dispatch-continue", "binop-chain", "boolop-chain", "attribute-chain", "call-chain"):
         return "KF-D53"     # the stdlib unparser is recursive: output nested deeper than the recursion limit
-    if cfg[2] == "short_circuit" and fam == "elif-chain" and ("MemoryError(compile)" in verdict or "RecursionError" in verdict):
+    if cfg[2] == "short_circuit" and fam in ("elif-chain", "dispatch-return", "dispatch-continue") and ("MemoryError(compile)" in verdict or "RecursionError" in verdict):
         return "KF-D54"     # the short-circuit style adds three operator levels per elif: the parser's stack overflows
     return None
 
